@@ -331,6 +331,54 @@ def users_law(ctx):
         elif sorted(first) != sorted(items)[:len(first)] and not set(first) <= set(items):
             ctx.fail(["users", "not-from-input", kind], "%r is not drawn from the input" % (first,), case)
 
+class _PmfLearner:
+    def __init__(self, pmf): self.pmf = pmf
+    def predict(self, context, actions): return list(self.pmf)
+    def learn(self, *a, **k): pass
+
+def samplers_law(ctx):
+    """the seeded samplers built on CobaRandom (PMFPredictor, PMFInfoPredictor, SafeLearner's PMF sampling): their (item, weight) stream is that of a fresh CobaRandom(seed).choicew -
+    also for lists with equal members carrying different weights - whatever other sampler objects exist or were used in between"""
+    import coba.random as cr
+    from coba.learners.utilities import PMFPredictor, PMFInfoPredictor
+    from coba.safety import SafeLearner
+    from coba.context import CobaContext, NullLogger
+    old_logger = CobaContext.logger; CobaContext.logger = NullLogger()      # SafeLearner announces that PMF answers are deprecated
+    try: _samplers_law(ctx, cr, PMFPredictor, PMFInfoPredictor, SafeLearner)
+    finally: CobaContext.logger = old_logger
+
+def _samplers_law(ctx, cr, PMFPredictor, PMFInfoPredictor, SafeLearner):
+    rng = ctx.rng
+    pools = [["a", "b", "c"], ["a", "a", "b"], [1, 1.0, True, 2], [(1, 0), (0, 1), (1, 0)], [0, 0, 0], [3, 4], ["x"]]
+    for it in range(ctx.n(60, 600)):
+        seed = rng.choice([1, 2, 7, rng.randrange(2**30)]); acts = list(rng.choice(pools)) if it >= len(pools) else list(pools[it])
+        w = [rng.choice([0, 0, 1, 2, 3]) for _ in acts]
+        if not any(w): w[rng.randrange(len(w))] = 1
+        pmf = [x / sum(w) for x in w]; k = rng.choice([3, 8, 20])
+        kind = rng.choice(["pmf", "pmfinfo", "safe", "safe-rewrapped"]) if it >= 8 else ["pmf", "pmfinfo", "safe", "safe-rewrapped"][it % 4]
+        case = dict(sampler=kind, seed=seed, actions=repr(acts), pmf=pmf, draws=k)
+        ctx.count("samplers:" + kind, repr(case), len(acts) >= 2)
+        try:
+            ref = cr.CobaRandom(seed); exp = [ref.choicew(acts, pmf) for _ in range(k)]
+            if kind == "pmf": obj = PMFPredictor(lambda c, A: pmf, seed); got = [tuple(obj.predict(None, acts))[:2] for _ in range(k)]
+            elif kind == "pmfinfo": obj = PMFInfoPredictor(lambda c, A: (pmf, {"k": 1}), seed); got = [tuple(obj.predict(None, acts))[:2] for _ in range(k)]
+            else:
+                inner = SafeLearner(_PmfLearner(pmf), seed + 1) if kind == "safe-rewrapped" else _PmfLearner(pmf)
+                other = SafeLearner(_PmfLearner(pmf), seed)       # another sampler with the same seed, used in between
+                obj = SafeLearner(inner, seed); got = []
+                for j in range(k):
+                    if kind == "safe-rewrapped" and j % 2: inner.predict(None, acts)
+                    if j % 3 == 0: other.predict(None, acts)
+                    got.append(tuple(obj.predict(None, acts))[:2])
+        except Exception as e:
+            ctx.fail(["users", "raises", errname(e)], "%s raised %s on %s" % (kind, errname(e), case), case); continue
+        # SafeLearner hands float copies of the arms 0/1 to the learner (C15): its draws are compared by value, the predictors' also by type
+        eq = (lambda g, e: g[0] == e[0] and g[1] == e[1]) if kind.startswith("safe") else (lambda g, e: g[0] == e[0] and type(g[0]) is type(e[0]) and g[1] == e[1])
+        same = len(got) == len(exp) and all(eq(g, e) for g, e in zip(got, exp))
+        if not same:
+            j = next((i for i, (g, e) in enumerate(zip(got, exp)) if not eq(g, e)), 0)
+            ctx.fail(["users", "not-the-seeded-stream", kind], "draw %d of the %s sampler with seed %r over %r / %r is %r; CobaRandom(%r).choicew gives %r" % (j, kind, seed, acts, pmf, got[j] if j < len(got) else None, seed, exp[j]), case)
+
 def run(ctx):
     os.makedirs(os.path.join(VERIF, ".work"), exist_ok=True)
     check_cases(ctx, targeted_cases(), "targeted")
@@ -338,6 +386,7 @@ def run(ctx):
     float_cases(ctx, ctx.n(300, 3000))
     cross_process(ctx)
     users_law(ctx)
+    samplers_law(ctx)
     replay_known(ctx)
 
 def replay(r):
